@@ -36,6 +36,7 @@ OPT_LIST_MEMBERS = (mk(t.List[t.Union[int, None]]), mk(type(None)))
 INT_OR_NONE = mk(t.Union[int, None])
 POS_INT = mk(t.Annotated[int, pane.Positive])
 P1C, P2C = mk(P1), mk(P2)
+SET_INT = mk(t.Set[int])
 
 
 def is_seq(v):
@@ -252,6 +253,8 @@ REF = {
     'counter': lambda n, v: dict_ok(n, v, ANY, INT),
     'union': lambda n, v: sum_ok(n, v, UNION_MEMBERS),
     'opt_list': lambda n, v: sum_ok(n, v, OPT_LIST_MEMBERS),
+    'opt_vol': lambda n, v: sum_ok(n, v, (mk(shared.ValueOrList[int]), mk(type(None)))),
+    'cond_set': lambda n, v: leaf_ok(n, v) if SET_INT.collect_errors(v) is None else (0 if tree_eq(n, SET_INT.collect_errors(v)) else 4),
     'p1': lambda n, v: dataclass_ok(n, v, P1),
     'p2': lambda n, v: dataclass_ok(n, v, P2),
     'pal': lambda n, v: dataclass_ok(n, v, PAl),
